@@ -40,7 +40,7 @@ place_demo() {
 run_demo() {
   rc=0
   for p in $(echo $demo_pkgs | tr ' ' '\n' | sort -u); do
-    o=$(go test -p 4 -count=1 -run 'Demo' "$p" 2>&1); r=$?; echo "$o" >>"$LOG"
+    o=$(go test -p 4 -count=1 -run 'Demo|C[0-9][0-9][rR][0-9]' "$p" 2>&1); r=$?; echo "$o" >>"$LOG"
     [ $r -ne 0 ] && rc=1
     echo "$o" | grep -q "no tests to run" && { echo "NO DEMO TEST RAN in $p" >>"$LOG"; rc=3; }
   done
